@@ -1,13 +1,17 @@
 #!/bin/bash
-# usage: tools/mutant.sh <patch> <ID> [tier]  -- apply a patch to /repo, run the check, revert. Prints exit code.
+# usage: tools/mutant.sh <patch> <ID> [tier]  -- apply a patch to a scratch copy of the repository
+# (/tmp/deskset-scratch-repo, a git worktree of /repo at HEAD), run the check against it, revert.
 set -u
 P=$(realpath "$1"); ID=$2; TIER=${3:-quick}
-cd /repo || exit 2
-if [ -n "$(git status --porcelain --untracked-files=no)" ]; then echo "repo dirty"; exit 2; fi
+SCR=/tmp/deskset-scratch-repo
+[ -d $SCR ] || git -C /repo worktree add -q $SCR HEAD
+cd $SCR || exit 2
+git checkout -q --detach $(git -C /repo rev-parse HEAD) 2>/dev/null
+git checkout -q -- .
 git apply "$P" || { echo "patch does not apply"; exit 2; }
-cd /verif && ./check "$ID" "$TIER" > /tmp/mutant.$$.out 2>&1
+cd /verif && DESKSET_REPO=$SCR ./check "$ID" "$TIER" > /tmp/mutant.$$.out 2>&1
 rc=$?
-cd /repo && git checkout -- . 
+cd $SCR && git checkout -q -- .
 grep -E '^(VIOLATION|KNOWN-FINDING|HARNESS-ERROR|RESULT)|signature=' /tmp/mutant.$$.out | head -12
 rm -f /tmp/mutant.$$.out
 echo "EXIT=$rc"
